@@ -92,6 +92,27 @@ n = open(sys.argv[2]).read().count("WARNING: DATA RACE")
 d.update({"class": "data-race", "violations": (d.get("violations") or 0) + 1, "messages": ["race detector reported %d data race(s); report: %s" % (n, sys.argv[2])] + (d.get("messages") or [])[:3]})
 json.dump(d, open(sys.argv[1], "w"))
 PY
+  elif [ $rc -ne 0 ] && python3 - "$W/race.log" <<'PY'
+# a panic raised inside texel's own code (first frame of the panicking goroutine is in the
+# repository, not in the harness or the injected runtime) in a goroutine nobody can recover from
+import re, sys
+t = open(sys.argv[1]).read()
+m = re.search(r"^(panic:|fatal error:).*?\n\ngoroutine \d+ \[running\]:\n((?:.+\n)+)", t, re.M | re.S)
+if not m: sys.exit(1)
+frames = [l for l in m.group(2).split("\n") if l and not l.startswith("\t")]
+frames = [f for f in frames if not f.startswith(("panic(", "runtime.", "created by"))]
+sys.exit(0 if frames and frames[0].startswith("github.com/pdok/texel/") and "/zzverif/" not in frames[0] else 1)
+PY
+  then
+    mkdir -p /verif/replays/C11; cp "$W/race.log" /verif/replays/C11/$VERIF_TIER-crash.log
+    python3 - "$W/race.json" /verif/replays/C11/$VERIF_TIER-crash.log <<'PY'
+import json, sys
+try: d = json.load(open(sys.argv[1]))
+except Exception: d = {"runs": 0, "outcomes_matching_reference": 0}
+head = [l for l in open(sys.argv[2]).read().split("\n") if l.startswith(("panic:", "fatal error:"))][:1]
+d.update({"class": "crash", "violations": (d.get("violations") or 0) + 1, "messages": ["the free-running pipeline crashed in texel code: %s; report: %s" % (" ".join(head), sys.argv[2])] + (d.get("messages") or [])[:3]})
+json.dump(d, open(sys.argv[1], "w"))
+PY
   elif [ $rc -ne 0 ]; then
     cat "$W/race.log" >&2; echo "HARNESS-ERROR: free-running pass crashed (exit $rc)" >&2; exit 2
   fi
